@@ -548,7 +548,9 @@ Invoke(m, r, name, args) ==
         Ret(m2, v) == SetFrame(m2, Push(CurFrame(m2), v))
         Arity(k) == n # k
     IN
-    IF name = "derives" /\ ~IsClassValue(m, r) /\ ~(IsKind(m, r, "inst") /\ "derives" \in DOMAIN Obj(m, r).fields) THEN
+    IF name = "derives" /\ ~IsClassValue(m, r) /\ ~IsKind(m, r, "inst") THEN
+         \* Object's method on a built-in value; an instance finds `derives` like any other member: its own field first, then the
+         \* definition nearest in its class's ancestry (a user class may override Object's)
          CallValue(m, NatM("derives"), args, r)
     ELSE IF IsKind(m, r, "vec") THEN
          LET es == Obj(m, r).es IN
